@@ -21,9 +21,9 @@ def tla_set(names):
 
 
 # ------------------------------------------------------------------ TLC: enumerate / evaluate
-def enumerate_designs(ctx, fam, nsvc=1, nmeth=1, simulate=None, depth=None):
+def enumerate_designs(ctx, fam, nsvc=1, nmeth=1, simulate=None, depth=None, workers="auto"):
     r = ctx.gen("mc/MC_OpenAPIOps", "gen/Gen_OpenAPIOps.cfg", consts={"OFamily": '"%s"' % fam, "NSvc": nsvc, "NMeth": nmeth},
-                simulate=simulate, depth=depth, workers=(1 if simulate else "auto"), label="Gen designs %s %dx%d%s" % (fam, nsvc, nmeth, " (simulate)" if simulate else ""), timeout=900)
+                simulate=simulate, depth=depth, workers=(1 if simulate else workers), label="Gen designs %s %dx%d%s" % (fam, nsvc, nmeth, " (simulate)" if simulate else ""), timeout=900)
     out, seen = [], set()
     for v in r.vectors:
         k = core.canon(v["design"])
